@@ -406,4 +406,4 @@ def _worker(ctx, job):
 
 def run(ctx):
     quick = ctx.tier == "quick"
-    ctx.parallel(_worker, [(130, 8)] * 16 if quick else [(12000, 20)] * 16)
+    ctx.parallel(_worker, [(400, 8)] * 16 if quick else [(12000, 20)] * 16)
